@@ -257,7 +257,7 @@ def gen_stat_case(rnd, k):
     start = "%sT%s%s" % (day0.isoformat(), rnd.choice(TODS), tz)
     if rnd.random() < 0.02:
         start = rnd.choice(["yesterday", "2023-13-01T00:00:00"])
-    c = {"k": "stat", "id": k, "seed": rnd.randint(0, 10 ** 6), "days": days,
+    c = {"k": "stat", "id": k, "seed": rnd.choice([0] + [rnd.randint(0, 10 ** 6) for _ in range(7)]), "days": days,
          "interval": rnd.choice([1, 5, 15, 15, 30, 60]),
          "min_soc": rnd.choice([0, 0.2, 0.5, 0.8, 0.8, 1.0, 0.37]), "types": types, "fleet": fleet,
          "start": start, "cs_power_min": rnd.choice([None, None, 0, 1.5])}
@@ -639,7 +639,8 @@ def gen_csv_case(rnd, k):
         rnd.shuffle(cols)
     c = {"k": "csv", "id": k, "mode": mode, "types": types, "rows": rows, "cols": cols,
          "days": rnd.choice([1, 2, 3, 7, 14, 30]), "min_soc": rnd.choice([0, 0.2, 0.5, 0.8, 0.8, 1.0]),
-         "interval": rnd.choice([1, 15, 60]), "seed": rnd.randint(0, 999), "cs_power_min": rnd.choice([None, 0])}
+         "interval": rnd.choice([1, 15, 60]), "seed": rnd.choice([0] + [rnd.randint(0, 999) for _ in range(7)]),
+         "cs_power_min": rnd.choice([None, 0])}
     r = rnd.random()
     if r < 0.03:
         c["rows"][0]["vehicle_type"] = "nonexistent"
@@ -914,7 +915,7 @@ def gen_simbev_case(rnd, k):
          "start_date": (dt.date(2021, 9, 17) + dt.timedelta(days=rnd.randint(0, 20))).isoformat(),
          "interval": rnd.choice([15, 15, 5, 60]), "ignore": rnd.random() < 0.5,
          "min_soc": rnd.choice([0, 0.2, 0.5, 0.8]), "verbose": rnd.choice([0, 0, 1]),
-         "region": rnd.choice([None, None, "region_1"]), "seed": rnd.choice([None, 1, 7, -3])}
+         "region": rnd.choice([None, None, "region_1"]), "seed": rnd.choice([None, 1, 7, -3, 0])}
     allrows = [(reg, st, i) for reg, fs in regions.items() for st, rs in fs.items() for i in range(len(rs))]
     if bad and allrows:
         reg, st, i = rnd.choice(allrows)
